@@ -9,7 +9,8 @@ import threading
 ID = "C14"
 LEVEL = "fault_enumeration"
 BUDGET = {"quick": 55, "thorough": 900}
-FLOOR = {"quick": 200, "thorough": 3000}
+QUICK_CASES = 1300  # generator items in the quick tier (fixed amount of work; BUDGET is then only a safety cap)
+FLOOR = {"quick": 400, "thorough": 3000}
 TIMEOUT = 90
 REQUIRED_OBS = ["graphs", "tasks_created", "callbacks_added", "callbacks_run", "cancel_points_injected", "waits_checked", "executor_calls", "registry_checks"]
 RULE = (
